@@ -235,6 +235,9 @@ func main() {
 		if *shard != "" {
 			fmt.Sscanf(*shard, "%d/%d", &ex.shardK, &ex.shardN)
 		}
+		if os.Getenv("GOSX_DEBUG") != "" {
+			ex.decSites = map[string]int{}
+		}
 		i.ex = ex
 		i.maxSteps = 1 << 62
 		i.initPackages([]*ssa.Package{hp})
@@ -270,6 +273,21 @@ func main() {
 		if os.Getenv("GOSX_DEBUG") != "" {
 			for k, v := range ex.stats.AbandonReasons {
 				fmt.Fprintf(os.Stderr, "   abandon[%d]: %s\n", v, k)
+			}
+			type kv struct {
+				k string
+				v int
+			}
+			var ds []kv
+			for k, v := range ex.decSites {
+				ds = append(ds, kv{k, v})
+			}
+			sort.Slice(ds, func(a, b int) bool { return ds[a].v > ds[b].v })
+			for n, d := range ds {
+				if n >= 12 {
+					break
+				}
+				fmt.Fprintf(os.Stderr, "   decisions[%d]: %s\n", d.v, d.k)
 			}
 			for _, s := range ex.samples {
 				fmt.Fprintf(os.Stderr, "   sample: %s\n", s)
